@@ -118,6 +118,20 @@ class SymStr:
         t = self._tail(it, c, 'c')
         return t.ptr(0)
 
+    def strtok(self, it, s, delims, e):
+        """abstract strtok: there may be no token; a token contains none of the delimiters; more may follow (bounded)"""
+        if not it.decide(2, ('strtok', it.where(e))):
+            it.user['strtok_next'] = None
+            return None
+        d = getattr(self, 'depth', 0)
+        t = SymStr(self.label + '.token'); t.exclude = set(self.exclude) | set(delims); t.depth = d + 1
+        if d < 2 and it.decide(2, ('strtok-more', it.where(e))):
+            rest = SymStr(self.label + '.rest'); rest.exclude = set(self.exclude); rest.depth = d + 1
+            it.user['strtok_next'] = rest.ptr(0)
+        else:
+            it.user['strtok_next'] = None
+        return t.ptr(0)
+
     def strrchr(self, it, s, c, e):
         c = it.concretize(c, 'strrchr')
         if c in self.exclude:
